@@ -128,7 +128,7 @@ def check_kernels(prog, rep):
             good = True
             if name == "gegv" and K.name != "DenseAdditiveDominanceLinearGenomicModel":
                 nontrivial = [s_ for s_ in walk_no_nested(f.node) if isinstance(s_, (ast.Assign, ast.AugAssign))]
-                if not nontrivial and "".join(dump(body[-1]).split()) == "returnself.gebv(gtobj=gtobj,**kwargs)":
+                if not nontrivial and "".join(dump(body[-1]).split()) in ("returnself.gebv(gtobj=gtobj,**kwargs)", "returnself.gebv(gtobj,**kwargs)"):
                     rep.ok("R1-linear", construct, "additive model: genotypic value == breeding value (delegates to gebv)")
                 else:
                     rep.unrec("R1-linear", construct, "gegv of a purely additive model does not delegate to gebv")
